@@ -522,7 +522,13 @@ func (w *World) Create(name string, tasks []Task, launch []string, cfg []string,
 	case err := <-done:
 		res.Err = err
 	case <-time.After(hangAfter):
-		res.Hang = true
+		// grace period: a slow machine is not a hang (a real hang never returns)
+		select {
+		case err := <-done:
+			res.Err = err
+		case <-time.After(HangGrace):
+			res.Hang = true
+		}
 	}
 	close(stop)
 	<-dirDone
@@ -580,6 +586,11 @@ func (e *Env) Control(ev string, hangAfter time.Duration) ControlResult {
 	case x := <-done:
 		return ControlResult{State: x.st, Err: x.err}
 	case <-time.After(hangAfter):
+	}
+	select {
+	case x := <-done:
+		return ControlResult{State: x.st, Err: x.err}
+	case <-time.After(HangGrace):
 		return ControlResult{State: e.State(), Hang: true}
 	}
 }
@@ -603,6 +614,10 @@ func (e *Env) Finish(destroy bool) {
 	case <-time.After(5 * time.Second):
 	}
 }
+
+// HangGrace is added to every hang watchdog before a request is declared hung: on a loaded or cold
+// machine a request can be slow; a request that really hangs never returns.
+var HangGrace = 6 * time.Second
 
 // ---------------------------------------------------------------- additions for C03
 
